@@ -133,7 +133,20 @@ func (d *Driver) call(user, method, path string, body *N) Resp {
 	return d.be.Do(method, path, hdrs(user, UserPlan[user], ct), b)
 }
 
+func (d *Driver) callPlan(user, plan, method, path string, body *N) Resp {
+	var b []byte
+	ct := ""
+	if body != nil {
+		b = body.JSON()
+		ct = "application/json"
+	}
+	return d.be.Do(method, path, hdrs(user, plan, ct), b)
+}
+
 func (d *Driver) seedCol(c *Col) error {
+	if c.CreatePlan != "" {
+		return d.seedColPlan(c)
+	}
 	ver := "/v2"
 	if c.V1 {
 		ver = "/v1"
@@ -145,6 +158,25 @@ func (d *Driver) seedCol(c *Col) error {
 	if len(c.Points) > 0 {
 		pts := &N{K: KArr, A: c.Points}
 		r = d.call(c.User, "POST", ver+"/collections/"+c.Id+"/points", Obj("points", pts))
+		if r.Status != 200 || nfail(r.Body) != 0 {
+			return fmt.Errorf("seeding %s/%s: insert answered %d %s %s", c.User, c.Id, r.Status, ascii(string(r.Body), 200), r.Msg)
+		}
+	}
+	return nil
+}
+
+func (d *Driver) seedColPlan(c *Col) error {
+	ver := "/v2"
+	if c.V1 {
+		ver = "/v1"
+	}
+	r := d.callPlan(c.User, c.CreatePlan, "POST", ver+"/collections", c.Create)
+	if r.Status != 200 {
+		return fmt.Errorf("seeding %s/%s: create answered %d %s %s", c.User, c.Id, r.Status, ascii(string(r.Body), 200), r.Msg)
+	}
+	if len(c.Points) > 0 {
+		pts := &N{K: KArr, A: c.Points}
+		r = d.callPlan(c.User, c.CreatePlan, "POST", ver+"/collections/"+c.Id+"/points", Obj("points", pts))
 		if r.Status != 200 || nfail(r.Body) != 0 {
 			return fmt.Errorf("seeding %s/%s: insert answered %d %s %s", c.User, c.Id, r.Status, ascii(string(r.Body), 200), r.Msg)
 		}
